@@ -42,8 +42,9 @@ TRUSTED = ["modelled, not verified: IEEE rounding of the float implementation (m
            "for n <= 5), permutations() by structural lexicographic enumeration; both tied to the code by exact comparison "
            "on every permutation of up to 5 elements",
            "the executable model uses shortcut operations for operands 0 and 1 (proved equal to the Qc field operations)",
-           "translator harness/props/c09.py:gen_files (ast walk of filter.py for LARGE/SMALL_KALMAN_COV and the "
-           "three motion models' matrices)"]
+           "translator harness/props/c09.py:gen_files (LARGE/SMALL_KALMAN_COV and the three motion models' matrices: "
+           "values obtained by evaluating the staged module, cross-checked by a whitelisting symbolic evaluation of "
+           "the definitions' AST)"]
 ASSUMPTIONS = ["old_indices entries are -1 or valid, pairwise distinct indices into the previous frame's features",
                "q, r symmetric positive definite with condition number <= 10^3; innovation covariance invertible",
                "coordinates, q, r have one entry per feature of the frame"]
@@ -59,55 +60,153 @@ DOC = {
 
 
 # ------------------------------------------------------------------------------- translator
+# Gen/ConstsC09.v holds LARGE/SMALL_KALMAN_COV and the matrices of the three motion models.  The values are
+# taken from the STAGED code by evaluating it (import the staged module, call the three *_kalman_model
+# functions), so any behaviour-preserving rewrite of those definitions (reformatted literals, named temporaries,
+# np.eye vs literal, helper functions) yields the same file.  Independently the definitions are evaluated
+# symbolically from the AST by a small whitelisting interpreter; where that interpreter understands the source it
+# must agree with the runtime values (a disagreement means the values depend on something other than the
+# definitions: fail closed); where it does not, the runtime values stand and the fact is noted.
 
-def _num(node):
-    """a numeric literal (int/float, optionally negated) as an exact Fraction"""
-    if isinstance(node, ast.UnaryOp) and isinstance(node.op, ast.USub):
-        return -_num(node.operand)
+_RUNTIME = r'''
+import json, fractions
+import numpy as np
+import centrosome.filter as F
+def fr(x):
+    if isinstance(x, bool) or not isinstance(x, (int, float, np.integer, np.floating)):
+        raise TypeError("not a real number: %r" % (x,))
+    f = fractions.Fraction(float(x)) if isinstance(x, (float, np.floating)) else fractions.Fraction(int(x))
+    return [str(f.numerator), str(f.denominator)]
+def mat(a):
+    a = np.asarray(a)
+    if a.ndim != 2 or a.size == 0 or not np.all(np.isfinite(a.astype(float))):
+        raise ValueError("model matrix is not a finite 2-D array")
+    return [[fr(x) for x in row] for row in a.tolist()]
+out = {"consts": {k: fr(getattr(F, k)) for k in ("LARGE_KALMAN_COV", "SMALL_KALMAN_COV")}, "models": {}}
+for m in ("velocity", "reverse_velocity", "static"):
+    ks = getattr(F, m + "_kalman_model")()
+    if not isinstance(ks, F.KalmanState):
+        raise TypeError(m + "_kalman_model does not return a KalmanState")
+    if len(ks.state_vec) or len(ks.state_noise_idx):
+        raise ValueError(m + "_kalman_model returns a non-empty state")
+    out["models"][m] = [mat(ks.observation_matrix), mat(ks.translation_matrix)]
+print(json.dumps(out))
+'''
+
+
+class _Unsupported(Exception):
+    pass
+
+
+def _sym_eval(node, env):
+    """symbolic evaluation of a whitelisted expression; matrices are numpy float arrays"""
     if isinstance(node, ast.Constant) and isinstance(node.value, (int, float)) and not isinstance(node.value, bool):
-        return Fr(node.value)
-    raise ValueError("C09 translator: not a numeric literal: " + ast.dump(node)[:120])
+        return node.value
+    if isinstance(node, (ast.List, ast.Tuple)):
+        return [_sym_eval(e, env) for e in node.elts]
+    if isinstance(node, ast.Name):
+        if node.id in env:
+            return env[node.id]
+        raise _Unsupported("name " + node.id)
+    if isinstance(node, ast.UnaryOp) and isinstance(node.op, (ast.USub, ast.UAdd)):
+        v = np.asarray(_sym_eval(node.operand, env), float)
+        return -v if isinstance(node.op, ast.USub) else v
+    if isinstance(node, ast.BinOp) and isinstance(node.op, (ast.Add, ast.Sub, ast.Mult, ast.Div)):
+        a = np.asarray(_sym_eval(node.left, env), float)
+        b = np.asarray(_sym_eval(node.right, env), float)
+        return {ast.Add: np.add, ast.Sub: np.subtract, ast.Mult: np.multiply, ast.Div: np.divide}[type(node.op)](a, b)
+    if isinstance(node, ast.Attribute) and node.attr == "T":
+        return np.asarray(_sym_eval(node.value, env), float).T
+    if isinstance(node, ast.Call):
+        f = node.func
+        if isinstance(f, ast.Attribute) and isinstance(f.value, ast.Name) and f.value.id in ("np", "numpy"):
+            args = [_sym_eval(a, env) for a in node.args]
+            for k in node.keywords:
+                if k.arg != "dtype":
+                    raise _Unsupported("keyword " + str(k.arg))
+            if f.attr in ("array", "asarray", "asanyarray") and len(args) == 1:
+                return np.array(args[0], float)
+            if f.attr in ("eye", "identity") and len(args) == 1:
+                return np.eye(int(args[0]))
+            if f.attr in ("zeros", "ones") and len(args) == 1:
+                return getattr(np, f.attr)(tuple(int(x) for x in np.atleast_1d(args[0])))
+            if f.attr == "diag" and len(args) == 1:
+                return np.diag(np.asarray(args[0], float))
+            raise _Unsupported("np." + f.attr)
+        if isinstance(f, ast.Attribute) and f.attr in ("astype", "copy", "transpose") and not node.keywords:
+            v = np.asarray(_sym_eval(f.value, env), float)
+            if f.attr == "transpose":
+                if node.args:
+                    raise _Unsupported("transpose with axes")
+                return v.T
+            return v
+        if isinstance(f, ast.Name) and f.id == "KalmanState":
+            names = ["observation_matrix", "translation_matrix"]
+            got = {}
+            for n, a in zip(names, node.args):
+                got[n] = a
+            if len(node.args) > 2:
+                raise _Unsupported("KalmanState with state arguments")
+            for k in node.keywords:
+                if k.arg not in names or k.arg in got:
+                    raise _Unsupported("KalmanState keyword " + str(k.arg))
+                got[k.arg] = k.value
+            if set(got) != set(names):
+                raise _Unsupported("KalmanState arguments")
+            return ("KalmanState", np.asarray(_sym_eval(got[names[0]], env), float),
+                    np.asarray(_sym_eval(got[names[1]], env), float))
+        raise _Unsupported("call")
+    raise _Unsupported(type(node).__name__)
 
 
-def _matrix(node):
-    """np.array([[..], ..]) or np.eye(k) -> list of rows of Fractions"""
-    if not (isinstance(node, ast.Call) and isinstance(node.func, ast.Attribute)
-            and isinstance(node.func.value, ast.Name) and node.func.value.id == "np" and not node.keywords):
-        raise ValueError("C09 translator: unrecognised matrix expression: " + ast.dump(node)[:160])
-    if node.func.attr == "array" and len(node.args) == 1 and isinstance(node.args[0], ast.List):
-        rows = []
-        for r in node.args[0].elts:
-            if not isinstance(r, ast.List):
-                raise ValueError("C09 translator: matrix row is not a list")
-            rows.append([_num(e) for e in r.elts])
-        if not rows or len(set(map(len, rows))) != 1:
-            raise ValueError("C09 translator: ragged matrix")
-        return rows
-    if node.func.attr == "eye" and len(node.args) == 1:
-        k = _num(node.args[0])
-        if k.denominator != 1 or not 0 < k < 9:
-            raise ValueError("C09 translator: np.eye size")
-        k = int(k)
-        return [[Fr(int(i == j)) for j in range(k)] for i in range(k)]
-    raise ValueError("C09 translator: unrecognised matrix expression: " + ast.dump(node)[:160])
+def _sym_function(fn, genv):
+    env = dict(genv)
+    for st in fn.body:
+        if isinstance(st, ast.Expr) and isinstance(st.value, ast.Constant):
+            continue                                    # docstring
+        if isinstance(st, ast.Assign) and len(st.targets) == 1 and isinstance(st.targets[0], ast.Name):
+            env[st.targets[0].id] = _sym_eval(st.value, env)
+            continue
+        if isinstance(st, ast.Return) and st.value is not None:
+            v = _sym_eval(st.value, env)
+            if isinstance(v, tuple) and v and v[0] == "KalmanState":
+                return v[1], v[2]
+            raise _Unsupported("return value")
+        raise _Unsupported(type(st).__name__)
+    raise _Unsupported("no return")
 
 
-def _model_matrices(fn):
-    """body of a *_kalman_model function: optional `om = ...`, `tm = ...`, then
-    `return KalmanState(<om>, <tm>)`"""
-    env = {}
-    body = [s for s in fn.body if not (isinstance(s, ast.Expr) and isinstance(s.value, ast.Constant))]
-    for st in body[:-1]:
-        if not (isinstance(st, ast.Assign) and len(st.targets) == 1 and isinstance(st.targets[0], ast.Name)):
-            raise ValueError("C09 translator: unexpected statement in %s" % fn.name)
-        env[st.targets[0].id] = _matrix(st.value)
-    ret = body[-1]
-    if not (isinstance(ret, ast.Return) and isinstance(ret.value, ast.Call) and isinstance(ret.value.func, ast.Name)
-            and ret.value.func.id == "KalmanState" and len(ret.value.args) == 2 and not ret.value.keywords):
-        raise ValueError("C09 translator: %s does not end in `return KalmanState(om, tm)`" % fn.name)
-    res = []
-    for a in ret.value.args:
-        res.append(env[a.id] if isinstance(a, ast.Name) and a.id in env else _matrix(a))
+def symbolic(src):
+    """{'consts': {...}, 'models': {...}} for whatever the whitelisting interpreter understands"""
+    tree = ast.parse(src)
+    genv, res = {}, {"consts": {}, "models": {}, "skipped": []}
+    for st in tree.body:
+        if isinstance(st, ast.Assign) and len(st.targets) == 1 and isinstance(st.targets[0], ast.Name):
+            try:
+                v = _sym_eval(st.value, genv)
+            except _Unsupported:
+                genv.pop(st.targets[0].id, None)
+                continue
+            except Exception:
+                genv.pop(st.targets[0].id, None)
+                continue
+            genv[st.targets[0].id] = v
+    for k in ("LARGE_KALMAN_COV", "SMALL_KALMAN_COV"):
+        if k in genv and np.ndim(genv[k]) == 0:
+            res["consts"][k] = Fr(float(genv[k])) if isinstance(genv[k], float) else Fr(genv[k])
+        else:
+            res["skipped"].append(k)
+    for st in tree.body:
+        if isinstance(st, ast.FunctionDef) and st.name in [m + "_kalman_model" for m in MODELS]:
+            m = st.name[:-len("_kalman_model")]
+            try:
+                om, tm = _sym_function(st, genv)
+                res["models"][m] = ([[Fr(float(x)) for x in r] for r in np.atleast_2d(om).tolist()],
+                                    [[Fr(float(x)) for x in r] for r in np.atleast_2d(tm).tolist()])
+            except _Unsupported as e:
+                res["skipped"].append("%s (%s)" % (m, e))
+            except Exception as e:
+                res["skipped"].append("%s (%s: %s)" % (m, type(e).__name__, e))
     return res
 
 
@@ -119,35 +218,45 @@ def _coq_zmat(m):
     for r in m:
         for e in r:
             if e.denominator != 1:
-                raise ValueError("C09 translator: non-integer model matrix entry")
+                raise ValueError("C09 translator: non-integer model matrix entry %s" % e)
+    if not m or len(set(map(len, m))) != 1:
+        raise ValueError("C09 translator: ragged model matrix")
     return "[" + "; ".join("[" + "; ".join(("%d" % e) if e >= 0 else "(%d)" % e for e in r) + "]" for r in m) + "]"
 
 
-def translate(src):
-    tree = ast.parse(src)
-    consts, fns = {}, {}
-    for st in tree.body:
-        if isinstance(st, ast.Assign) and len(st.targets) == 1 and isinstance(st.targets[0], ast.Name) \
-                and st.targets[0].id in ("LARGE_KALMAN_COV", "SMALL_KALMAN_COV"):
-            if st.targets[0].id in consts:
-                raise ValueError("C09 translator: %s assigned twice" % st.targets[0].id)
-            consts[st.targets[0].id] = _num(st.value)
-        if isinstance(st, ast.FunctionDef) and st.name in [m + "_kalman_model" for m in MODELS]:
-            fns[st.name[:-len("_kalman_model")]] = _model_matrices(st)
-    if set(consts) != {"LARGE_KALMAN_COV", "SMALL_KALMAN_COV"} or set(fns) != set(MODELS):
-        raise ValueError("C09 translator: constants or model functions not found")
+def render(consts, models):
     out = ["(* GENERATED by harness/props/c09.py from the staged centrosome/filter.py - do not edit. *)",
            "From Coq Require Import ZArith List QArith Qcanon.", "Import ListNotations.", "Open Scope Z_scope.", ""]
     for k in ("LARGE_KALMAN_COV", "SMALL_KALMAN_COV"):
         out.append("Definition %s : Qc := %s." % (k, _coq_q(consts[k])))
     for m in MODELS:
-        out.append("Definition %s_om : list (list Z) := %s." % (m, _coq_zmat(fns[m][0])))
-        out.append("Definition %s_tm : list (list Z) := %s." % (m, _coq_zmat(fns[m][1])))
+        out.append("Definition %s_om : list (list Z) := %s." % (m, _coq_zmat(models[m][0])))
+        out.append("Definition %s_tm : list (list Z) := %s." % (m, _coq_zmat(models[m][1])))
     return "\n".join(out) + "\n"
 
 
+def translate(runtime_json, src, note=None):
+    rt = json.loads(runtime_json)
+    consts = {k: Fr(int(v[0]), int(v[1])) for k, v in rt["consts"].items()}
+    models = {m: tuple([[Fr(int(x[0]), int(x[1])) for x in r] for r in mat] for mat in mats)
+              for m, mats in rt["models"].items()}
+    if set(consts) != {"LARGE_KALMAN_COV", "SMALL_KALMAN_COV"} or set(models) != set(MODELS):
+        raise ValueError("C09 translator: constants or model functions not found")
+    sym = symbolic(src)
+    for k, v in sym["consts"].items():
+        if v != consts[k]:
+            raise ValueError("C09 translator: %s is %s in the source text but %s at run time" % (k, v, consts[k]))
+    for m, (om, tm) in sym["models"].items():
+        if (om, tm) != (models[m][0], models[m][1]):
+            raise ValueError("C09 translator: %s model matrices differ between source text and run time" % m)
+    if sym["skipped"] and note:
+        note("C09 translator: not evaluated symbolically (run-time values used): " + "; ".join(sym["skipped"]))
+    return render(consts, models)
+
+
 def gen_files(ctx):
-    return {"theories/Gen/ConstsC09.v": translate(ctx.staged_source("centrosome/filter.py"))}
+    rt = ctx.run_staged_python(_RUNTIME, timeout=120)
+    return {"theories/Gen/ConstsC09.v": translate(rt, ctx.staged_source("centrosome/filter.py"), ctx.note)}
 
 
 # ------------------------------------------------------------------------------- generator
